@@ -15,11 +15,28 @@ GRAPH_STREAM = dict(
          '(type,key,group) identities, random 7-node DAGs/cyclic graphs; a scenario is non-trivial when it has at least one edge',
 )
 
+CORE_STREAM = dict(
+    name='core', pkg='.', files=['harness/core/vp_core_test.go', 'harness/core/vp_types_test.go'], test='TestVerifCore',
+    corpus='corpus/core', new_marker='p new',
+    env=dict(quick=dict(VERIF_CORE_N=1500), thorough=dict(VERIF_CORE_N=20000)),
+    rule='container scenarios: random registration sets over 12 service types / 3 interfaces (plain, keyed, grouped, aliased, '
+         'multi-return, result-object, instance-valued, initializer forms; In structs with name/group/optional tags; every '
+         'constructor also takes Scope and context.Context), 1/5 with seeded defects (cycles, lifetime conflicts, missing '
+         'dependencies), 1/3 with constructor/Close faults; then Build and a random history of CreateScope (nested, with '
+         'contexts) / Get / GetKeyed / GetGroup / Close / cancel / Provider.Close; non-trivial = Build succeeded and a history ran',
+)
+
+CONTAINER_PROPS = ['C01', 'C02', 'C03', 'C04', 'C07', 'C08', 'C10', 'C11', 'C12', 'C13', 'C14', 'C15', 'C18']
+
 PROPS = {
     'C05': dict(streams=[GRAPH_STREAM]),
     'C06': dict(streams=[GRAPH_STREAM]),
     'C19': dict(streams=[GRAPH_STREAM]),
 }
+
+
+for _p in CONTAINER_PROPS:
+    PROPS[_p] = dict(streams=[CORE_STREAM])
 
 
 def streams(prop):
